@@ -11,7 +11,7 @@ use swc_core::{
         ast::*,
         atoms::Atom,
         utils::{private_ident, quote_ident, quote_str},
-        visit::{VisitMut, VisitMutWith},
+        visit::{Visit, VisitMut, VisitMutWith, VisitWith},
     },
     plugin::errors::HANDLER,
 };
@@ -1233,6 +1233,15 @@ where
             .iter()
             .for_each(|item| self.search_jsx_pragma(item.span()));
 
+        if self.options.resolve_type {
+            // a type may be declared after the `defineComponent` call that uses it,
+            // so all declarations are registered before anything is resolved
+            let mut collector = TypeDeclCollector::default();
+            module.visit_with(&mut collector);
+            self.interfaces = collector.interfaces;
+            self.type_aliases = collector.type_aliases;
+        }
+
         module.visit_mut_children_with(self);
 
         #[cfg(feature = "verif-hooks")]
@@ -1581,34 +1590,6 @@ where
         }
     }
 
-    fn visit_mut_ts_interface_decl(&mut self, ts_interface_decl: &mut TsInterfaceDecl) {
-        ts_interface_decl.visit_mut_children_with(self);
-        if self.options.resolve_type {
-            let key = (ts_interface_decl.id.sym.clone(), ts_interface_decl.id.ctxt);
-            if let Some(interface) = self.interfaces.get_mut(&key) {
-                interface
-                    .body
-                    .body
-                    .extend_from_slice(&ts_interface_decl.body.body);
-            } else {
-                self.interfaces.insert(key, ts_interface_decl.clone());
-            }
-        }
-    }
-
-    fn visit_mut_ts_type_alias_decl(&mut self, ts_type_alias_decl: &mut TsTypeAliasDecl) {
-        ts_type_alias_decl.visit_mut_children_with(self);
-        if self.options.resolve_type {
-            self.type_aliases.insert(
-                (
-                    ts_type_alias_decl.id.sym.clone(),
-                    ts_type_alias_decl.id.ctxt,
-                ),
-                (*ts_type_alias_decl.type_ann).clone(),
-            );
-        }
-    }
-
     fn visit_mut_call_expr(&mut self, call_expr: &mut CallExpr) {
         call_expr.visit_mut_children_with(self);
 
@@ -1663,6 +1644,39 @@ where
             call,
             "name",
             Expr::Lit(Lit::Str(quote_str!(name.sym.clone()))),
+        );
+    }
+}
+
+/// Registers every interface (merging repeated declarations) and type alias of a module.
+#[derive(Default)]
+struct TypeDeclCollector {
+    interfaces: FnvHashMap<(Atom, SyntaxContext), TsInterfaceDecl>,
+    type_aliases: FnvHashMap<(Atom, SyntaxContext), TsType>,
+}
+
+impl Visit for TypeDeclCollector {
+    fn visit_ts_interface_decl(&mut self, ts_interface_decl: &TsInterfaceDecl) {
+        ts_interface_decl.visit_children_with(self);
+        let key = (ts_interface_decl.id.sym.clone(), ts_interface_decl.id.ctxt);
+        if let Some(interface) = self.interfaces.get_mut(&key) {
+            interface
+                .body
+                .body
+                .extend_from_slice(&ts_interface_decl.body.body);
+        } else {
+            self.interfaces.insert(key, ts_interface_decl.clone());
+        }
+    }
+
+    fn visit_ts_type_alias_decl(&mut self, ts_type_alias_decl: &TsTypeAliasDecl) {
+        ts_type_alias_decl.visit_children_with(self);
+        self.type_aliases.insert(
+            (
+                ts_type_alias_decl.id.sym.clone(),
+                ts_type_alias_decl.id.ctxt,
+            ),
+            (*ts_type_alias_decl.type_ann).clone(),
         );
     }
 }
